@@ -562,13 +562,50 @@ def rx_replace_all(ex, st, g, rxv, s, tmpl_parts, pos, max_matches=None):
     return s_concat(result, tail)
 
 
+def _split_template(tm):
+    """A template whose concrete prefix ends in a closed `${n}` reference (or holds no `$`) and whose symbolic rest cannot
+    contain `$` (no byte term has 36 among its possible values) is expanded statically: prefix by the template grammar,
+    rest as literal text. Returns None when that cannot be shown (the symbolic template machine is used instead)."""
+    if not is_c(tm.ln):
+        n = 0
+        while n < tm.cap and is_c(tm.b[n]):
+            n += 1
+    else:
+        n = 0
+        while n < tm.ln and is_c(tm.b[n]):
+            n += 1
+    prefix = bytes(tm.b[:n])
+    if b'$' in prefix and not prefix.endswith(b'}'):
+        return None
+    for t in tm.b[n:tm.cap]:
+        if is_c(t):
+            if t == 36:
+                return None
+            continue
+        lv = z3.leaves(t)
+        if lv is None:
+            ub, lb = get_ub(t), get_lb(t)
+            if ub is None or lb is None or lb <= 36 <= ub:
+                return None
+        elif 36 in lv:
+            return None
+    parts = [(k, s_const(v) if k == 'lit' else v) for k, v in expand_template(prefix)]
+    rest = Str(tm.b[n:tm.cap], i_bin('-', tm.ln, n, W, True) if not is_c(tm.ln) else tm.ln - n)
+    if not is_c(rest.ln):
+        set_ub(rest.ln, tm.cap - n)
+    parts.append(('lit', rest))
+    return parts
+
+
 @intr('(*regexp.Regexp).ReplaceAllString', '(*regexp.Regexp).ReplaceAll')
 def rx_replace_all_string(ex, st, g, args, pos):
     tm = args[2]
+    if isinstance(tm, ChoiceV):
+        tm = choice_str(tm)
     if tm.is_conc():
         parts = [(k, s_const(v) if k == 'lit' else v) for k, v in expand_template(tm.conc())]
     else:
-        parts = [('sym', tm)]
+        parts = _split_template(tm) or [('sym', tm)]
     return lift_str(ex, st, [args[1]], lambda sv: rx_replace_all(ex, st, g, args[0], sv, parts, pos))
 
 
